@@ -211,7 +211,7 @@ def w_landmarks(ctx, rng, i):
                 obj.points[rng.integers(0, obj.n_points), rng.integers(0, d)] = 0.0
                 obj.points[rng.integers(0, obj.n_points), rng.integers(0, d)] = -0.0 if rng.random() < 0.5 else float(rng.integers(-3, 4))
             if cls == "LabelledPointUndirectedGraph" and rng.random() < 0.5:
-                masks = OrderedDict((k2, obj._labels_to_masks[k]) for k, k2 in zip(obj._labels_to_masks, ["zeta", "ålpha ü", "mid", "點", "0", "b b"]))
+                masks = OrderedDict((k2, obj._labels_to_masks[k]) for k, k2 in zip(obj._labels_to_masks, [["zeta", "ålpha ü", "mid", "點", "0", "b b"], ["e\u0301", "\u00e9", "A\u030a", "\u2126", "\u03a9", "\ufb01x"]][int(rng.random() < 0.4)]))
                 obj = ms.LabelledPointUndirectedGraph(obj.points, obj.adjacency_matrix, masks)
             if cls == "LabelledPointUndirectedGraph" and rng.random() < 0.4:
                 obj = with_empty_label(rng, obj)
@@ -227,7 +227,8 @@ def w_landmarks(ctx, rng, i):
                     s.points[rng.integers(0, s.n_points), rng.integers(0, d)] = 0.0
                 if cls == "LabelledPointUndirectedGraph" and rng.random() < 0.4:
                     s = with_empty_label(rng, s)
-                lm[["zz", "aa", "Ünï", "g 1", "0"][g] if rng.random() < 0.7 else "k%d" % g] = s
+                # (names are kept code point by code point: a decomposed accent and the precomposed letter are two names)
+                lm[[["zz", "aa", "Ünï", "g 1", "0"], ["e\u0301", "\u00e9", "A\u030a", "\u2126", "\u03a9"]][int(rng.random() < 0.3)][g] if rng.random() < 0.7 else "k%d" % g] = s
             if rng.random() < 0.3:
                 lm["empty_edges"] = ms.PointUndirectedGraph.init_from_edges(gen.points(rng, 3, d), None)
             obj = lm
@@ -352,7 +353,8 @@ def w_images(ctx, rng, i):
     import menpo.image as mi
     from PIL import Image as PI
     C = [1, 3][i % 2]
-    fmt = [".png", ".bmp", ".tif", ".ppm" if C == 3 else ".pgm", ".png"][(i // 2) % 5]
+    # every lossless raster format the exporter lists, whatever the extension is conventionally used for
+    fmt = [".png", ".bmp", ".tif", ".ppm" if C == 3 else ".pgm", ".png", ".pgm", ".pbm", ".ppm", ".dib", ".tiff", ".im"][(i // 2) % 11]     # (not .pcx: Pillow's own PCX codec does not round-trip odd widths)
     H, W = [(int(rng.integers(2, 12)), int(rng.integers(2, 12))), (1, int(rng.integers(2, 9))), (int(rng.integers(2, 9)), 1), (1, 1), (7, 5)][(i // 10) % 5]
     u8 = rng.integers(0, 256, (C, H, W)).astype(np.uint8)
     if rng.random() < 0.3:
@@ -379,6 +381,27 @@ def w_images(ctx, rng, i):
                 mech = "%s:%dch:%s:%s" % (fmt, C, "1px" if min(H, W) == 1 else "wide", "float_in" if normalize else "uint8_in")
                 ctx.fail("eight_bit_image_changed_by_import_export_import", cls="image", mech=mech, shape=[C, H, W],
                          got_shape=list(back.pixels.shape), max_diff=int(np.abs(back.pixels.astype(int) - u8.astype(int)).max()) if back.pixels.shape == u8.shape else None)
+        # a file with an alpha channel (a cut-out): the colour values in the file are the 8-bit data, transparent or not
+        if i % 4 == 1:
+            a8 = rng.integers(0, 256, (4, H, W)).astype(np.uint8)
+            a8[3] = rng.choice(np.array([0, 0, 1, 90, 200, 255, 255], dtype=np.uint8), (H, W))
+            srca = os.path.join(sb.dir, "seed_rgba.png")
+            PI.fromarray(np.moveaxis(a8, 0, -1), "RGBA").save(srca)
+            ctx.tap("alpha_channel_import", "calls"); ctx.tap("alpha_channel_import", "checked")
+            raw = mio.import_image(srca, normalize=False)
+            if raw.pixels.shape != a8.shape or not np.array_equal(raw.pixels, a8):
+                ctx.fail("imported_image_differs_from_the_file", cls="import", mech="rgba:normalize=False")
+            nrm = mio.import_image(srca, normalize=True)
+            if nrm.pixels.shape != a8[:3].shape or not np.array_equal(np.round(nrm.pixels * 255).astype(np.uint8), a8[:3]):
+                ctx.fail("imported_image_differs_from_the_file", cls="import", mech="rgba:normalize=True:colour_channels")
+            elif hasattr(nrm, "mask") and not np.array_equal(np.asarray(nrm.mask.pixels[0]), a8[3] > 0):
+                ctx.fail("imported_image_differs_from_the_file", cls="import", mech="rgba:normalize=True:mask_is_not_alpha")
+            else:
+                arg, ab, sp = sb.spell(rng, "cutout" + fmt)
+                if watched_export(ctx, mio.export_image, nrm, arg, ab, False, ("image" + fmt, sp)):
+                    back = mio.import_image(ab, normalize=False)
+                    if back.pixels.shape != a8[:3].shape or not np.array_equal(back.pixels, a8[:3]):
+                        ctx.fail("eight_bit_image_changed_by_import_export_import", cls="image", mech="%s:rgba_source" % fmt)
         # float data: less than one quantisation level
         f = mi.Image(rng.random((C, H, W)))
         arg, ab, sp = sb.spell(rng, "float" + fmt)
